@@ -587,15 +587,30 @@ func (w *World) enumPaths(fn *ssa.Function, eval func(cond ssa.Value) (val bool,
 				return
 			case *ssa.If:
 				v, known := eval(t.Cond)
+				cs := ""
+				if w.branchMarkers {
+					cs = w.Canon(t.Cond)
+				}
+				mark := func(ev []string, taken bool) []string {
+					out := append([]string(nil), ev...)
+					if w.branchMarkers {
+						if taken {
+							out = append(out, "?T:"+cs)
+						} else {
+							out = append(out, "?F:"+cs)
+						}
+					}
+					return out
+				}
 				if known {
 					if v {
-						walk(b.Succs[0], ev, onPath)
+						walk(b.Succs[0], mark(ev, true), onPath)
 					} else {
-						walk(b.Succs[1], ev, onPath)
+						walk(b.Succs[1], mark(ev, false), onPath)
 					}
 				} else {
-					walk(b.Succs[0], append([]string(nil), ev...), onPath)
-					walk(b.Succs[1], append([]string(nil), ev...), onPath)
+					walk(b.Succs[0], mark(ev, true), onPath)
+					walk(b.Succs[1], mark(ev, false), onPath)
 				}
 				return
 			case *ssa.Jump:
